@@ -25,13 +25,13 @@ PROPS = {
     "C03": {
         "module": "Cdecao.Props.C03",
         "theorems": ["Props.C03", "Props.C03_bounded_of_spec", "Props.C03_caobab"],
-        "streams": ["engine", "solve"],
+        "streams": ["engine", "solve", "engine-exhaustive"],
     },
     "C04": {
         "module": "Cdecao.Props.C04",
         "theorems": ["Props.C04_no_deadlock", "Props.C04_done_means_finished", "Props.C04_stats_step", "Props.C04_bounded_work",
                      "Props.C04_stats_reach", "Props.C04_panicked", "Props.C04_stats_at_done", "Props.C04_stats_at_finished", "Props.C04_done_absorbing", "Props.C04_join"],
-        "streams": ["engine", "solve"],
+        "streams": ["engine", "solve", "engine-exhaustive"],
     },
     "C05": {
         "module": "Cdecao.Props.C05",
@@ -57,7 +57,7 @@ PROPS = {
     "C09": {
         "module": "Cdecao.Props.C09",
         "theorems": ["Props.C09", "Props.C09_none_iff"],
-        "streams": ["engine"],
+        "streams": ["engine", "engine-exhaustive"],
     },
     "C10": {
         "module": "Cdecao.Props.C10",
@@ -73,6 +73,11 @@ PROPS = {
         "module": "Cdecao.Props.C12",
         "theorems": ["Props.C12_loop", "Props.C12_refuse_kind", "Props.C12_refuse_version", "Props.C12_defaults"],
         "streams": ["cdedb-read"],
+    },
+    "C13": {
+        "module": "Cdecao.Props.C13",
+        "theorems": ["Props.C13_read", "Props.C13_toplevel"],
+        "streams": ["cdedb-pairs", "e2e-cde"],
     },
     "C14": {
         "module": "Cdecao.Props.C14",
@@ -103,7 +108,7 @@ PROPS = {
         "module": "Cdecao.Props.C19",
         "theorems": ["Props.C19_no_hang", "Props.C19_bounded_work", "Props.C19_dead_absorbing", "Props.C19_failure_reported", "Props.C19_join_not_stuck",
                      "Props.C19_outcome_final", "Props.C19_panicked_pos"],
-        "streams": ["engine-fault"],
+        "streams": ["engine-fault", "engine-exhaustive"],
     },
     "C20": {
         "module": "Cdecao.Props.C20",
@@ -142,8 +147,10 @@ LEVELS = {
             "note": _NODE + " f32 behaviour is a parameter (after fix F9 totality needs no float property)."},
     "C11": {"text": "Arithmetic and writer theorems about adapt_course_for_invisible_participants (places reserved: max counting pre-assigned, min counting both groups, course fixed, fixed course written active) + exact correspondence of the reader (incl. invisible counts, hidden names, external quality data) on generated exports with arbitrary existing assignments, all four option combinations, and the end-to-end consistency oracle with both-groups counts through the real binary.",
             "note": "Model CD.read/CD.adapt; the room offset change is applied natively (f32) by the driver. Non-reassignment of ignored registrations follows from the reader correspondence + writer theorem (only participants are named); stated in Lean only at the component level (partial)."},
-    "C12": {"text": "Theorems Props.C12_loop (registration loop invariant: participants = kept registrations in order, index = position, instructor indices point at the instructing registration), refusals (kind, version), defaults from the re-extracted constants; exact correspondence of CD.read with io::cdedb::read (courses, participants, choices/penalties, sizes, f32 factor/offset bits, ambience data, Ok/Err) on generated exports incl. single-field corruptions; an independent declarative re-statement (Python) as oracle.",
+    "C12": {"text": "Theorems Props.C12_read (assembled characterisation of CD.read: participants = the registrations of the selected part with status participant, not ignored, having a valid choice or instructing a kept course, in key order; courses = offered (and not ignored) ones, stably sorted by the padded number; instructor indices point at the instructing registration), C12_choices (penalty = position in the ORIGINAL list, skipped courses leave gaps), C12_courses, refusals (kind, version, no track, two tracks unselected, unknown track), defaults from the re-extracted constants; exact correspondence of CD.read with io::cdedb::read (courses, participants, choices/penalties, sizes, f32 factor/offset bits, ambience data, Ok/Err) on generated exports incl. single-field corruptions; an independent declarative re-statement (Python) as oracle.",
             "note": "Model starts at the serde_json value; timestamp syntax by a simplified recogniser exact on the generator's domain; canonical decimal keys only."},
+    "C13": {"text": "Theorem Props.C13_read (non-interference of the reader): two export values that agree on kind/version/timestamp/event/id and whose course and registration records agree on the views the reader consults (status of the selected part, the two names, course_id/course_instructor/choices of the selected track, segments[track], nr, shortname, sizes, fields) — and, without --ignore-assigned, differ arbitrarily in course_id among known ids, without --ignore-cancelled in the true/false value of the selected track's segment — give the SAME reader result (problem, ambience data or refusal). Everything after the reader is a function of the problem (one worker). Pairs of exports (1-10 irrelevant edits of 9 kinds) go through the in-process reader and, with one worker, through the real binary (files compared after stripping timestamps).",
+            "note": "Model CD.read; the relation Agree is phrased by equality of views, the nested set-a-member corollaries are covered by congruence lemmas and a worked example. Determinism of the engine with one worker given the same problem is by the engine model being a function of the pop policy (BinaryHeap order is deterministic for equal inputs; trusted)."},
     "C14": {"text": "Theorems Props.C14_entries / C14_entries_sorted (the listing of a course = exactly the participants assigned to it, in order, flagged iff instructor) and C14_array (one entry per participant, null or valid index, all T and schedules); the real binary's --print output is compared byte for byte with the Lean rendering LM.render, and the output file's array/keys are checked, incl. hidden names, non-ASCII names and a stale longer output file.",
             "note": "io.rs format_assignment is modelled by LM.render; the possible-rooms strings are taken from the real output and checked by C18."},
     "C15": {"text": "Theorem Props.C15_accept_sound: whatever the simple-format reader + validation accepts is an instance with all indices in range, num_min <= num_max and at least one participant (the premises of the solver's totality theorem C10); the real binary is run on single-field corruptions of valid simple and CdE documents, bad option values and raw garbage: exit status in {64,65,66,2}, no 'panicked', no output file; accept/refuse is compared with the Lean models SM.accepts and CD.read.",
